@@ -358,3 +358,14 @@ Qed.
 End WithSpec.
 
 End Exact.
+
+(* ------------------------------------------------------------------ an exact arithmetic that computes: Z
+   (used by the Examples of Property.v: the hypotheses of the theorems are satisfiable on concrete inputs).
+   Z.sqrt / Z.div are not exact, which the loop theorems do not need (`ExactArith` has ring identities only). *)
+Definition ArZ : Arith Z :=
+  {| a0 := 0%Z; a1 := 1%Z; a10 := 10%Z;
+     aadd := Z.add; asub := Z.sub; amul := Z.mul; adiv := Z.div; asqrt := Z.sqrt;
+     agtb := Z.gtb; aisnan := fun _ => false; around32 := fun x => x |}.
+
+Lemma ArZ_exact : ExactArith Z ArZ.
+Proof. split; cbn [ArZ a0 a1 aadd asub amul around32]; intros; try ring; reflexivity. Qed.
